@@ -5,7 +5,16 @@
 #ifndef HC
 #define HC 3
 #endif
-extern uint64_t _ZN6engine10PIECE_HASHE[13][64];
+/* PIECE_HASH is an environment table: every read of the translated engine code is a call of env_piece_hash.
+   Indicator encoding: the table is zero except for one arbitrary cell holding an arbitrary value.  The key state is
+   an affine function over GF(2) of the table contents (checked syntactically on the IR on every run, see
+   vlib/linearity.py), so an identity between XOR-accumulated keys holds for every table iff it holds for every
+   indicator table (the value 0 covers the constant part). */
+static uint32_t ind_pc, ind_sq; static uint64_t ind_v;
+uint64_t env_piece_hash(uint64_t pc, uint64_t sq) {
+  __CPROVER_assert(pc < 13 && sq < 64, "PIECE_HASH index in bounds");
+  return (pc == ind_pc && sq == ind_sq) ? ind_v : 0;
+}
 extern uint64_t _ZN6engine13CASTLING_HASHE[16];
 extern uint64_t _ZN6engine14ENPASSANT_HASHE[8];
 extern uint64_t _ZN6engine9SIDE_HASHE;
@@ -13,7 +22,7 @@ extern uint64_t _ZN6engine9SIDE_HASHE;
 static uint64_t k0, k1, k2, k3, k4; static uint32_t hm0, ply0;
 
 static void zobrist_tables_arbitrary(void) {
-  for (int a = 0; a < 13; a++) for (int b = 0; b < 64; b++) _ZN6engine10PIECE_HASHE[a][b] = nondet_u64();
+  ind_pc = nondet_u32(); ind_sq = nondet_u32(); ind_v = nondet_u64(); __CPROVER_assume(ind_pc < 13 && ind_sq < 64);
   for (int a = 0; a < 16; a++) _ZN6engine13CASTLING_HASHE[a] = nondet_u64();
   for (int a = 0; a < 8; a++) _ZN6engine14ENPASSANT_HASHE[a] = nondet_u64();
   _ZN6engine9SIDE_HASHE = nondet_u64();
@@ -32,28 +41,58 @@ static void pre_state(const uint32_t *mat, int n, uint32_t side) {
   HKEY.HK_piece_key = k0; HKEY.HK_pawn_key = k1; HKEY.HK_enpassant_key = k2; HKEY.HK_castling_key = k3; HKEY.HK_color_key = k4;
 }
 /* RI of the placement part: lists, counts and bitboards describe exactly the board T */
+static int ri_maxc = NPMAX;   /* max entries of one piece list that can be in use (material multiplicity + a promotion) */
 static void check_ri(const SBoard *T, const char *unused) {
-  uint64_t kind[7] = {0}, col[2] = {0}; uint32_t cnt[13] = {0};
-  for (int s = 0; s < 64; s++) if (T->b[s]) { kind[S_KIND(T->b[s])] |= 1ULL << s; col[S_COLOR(T->b[s])] |= 1ULL << s; cnt[T->b[s]]++; }
-  for (int k = 1; k < 7; k++) PROP(P.POS_by_piece_kind_bb[k] == kind[k], "RI: piece-kind bitboards match the board");
-  PROP(P.POS_by_color_bb[0] == col[0] && P.POS_by_color_bb[1] == col[1], "RI: colour bitboards match the board");
+  uint64_t bb[13];
+  for (int pc = 0; pc < 13; pc++) { bb[pc] = 0; for (int s = 0; s < 64; s++) if (T->b[s] == pc) bb[pc] |= 1ULL << s; }
+  int okk = 1, okc = 1, okl = 1;
+  for (int k = 1; k < 7; k++) if (P.POS_by_piece_kind_bb[k] != (bb[k] | bb[k + 6])) okk = 0;
+  PROP(okk, "RI: piece-kind bitboards match the board");
+  PROP(P.POS_by_color_bb[0] == (bb[1] | bb[2] | bb[3] | bb[4] | bb[5] | bb[6]) && P.POS_by_color_bb[1] == (bb[7] | bb[8] | bb[9] | bb[10] | bb[11] | bb[12]), "RI: colour bitboards match the board");
   for (int pc = 1; pc < 13; pc++) {
-    PROP((uint32_t)P.POS_piece_count[pc] == cnt[pc], "RI: piece counts match the board");
-    uint64_t seen = 0;
-    for (int i = 0; i < NPMAX; i++) if (i < (int)cnt[pc]) {
+    int32_t n = P.POS_piece_count[pc];
+    if (n < 0 || n > ri_maxc) okc = 0;
+    uint64_t lbb = 0;
+    for (int i = 0; i < NPMAX; i++) if (i < ri_maxc && i < n) {
       uint32_t sq = P.POS_piece_position[pc][i];
-      PROP(sq < 64 && T->b[sq & 63] == pc && !(seen >> (sq & 63) & 1), "RI: piece list entries are distinct squares holding that piece");
-      seen |= 1ULL << (sq & 63);
+      if (sq >= 64) okl = 0;
+      for (int j = 0; j < i; j++) if (P.POS_piece_position[pc][j] == sq) okl = 0;      /* no duplicates */
+      lbb |= 1ULL << (sq & 63);
     }
+    if (lbb != bb[pc]) okl = 0;      /* the list is exactly the set of squares holding that piece (so count = number of such squares) */
   }
+  PROP(okc, "RI: piece counts within the possible range");
+  PROP(okl, "RI: every piece list is exactly the set of squares holding that piece, without duplicates");
 }
+static uint64_t cell(uint32_t pc, uint32_t sq, int pawns) {
+  if (pc == 0 || (S_KIND(pc) == 1) != pawns) return 0;
+  return env_piece_hash(pc, sq);
+}
+/* XOR of the table cells of every (piece, square) pair present in exactly one of A and B.  A and B differ on at
+   most the five squares in q[] (asserted separately), so only those are read from the arbitrary tables. */
+static uint32_t touched[5]; static int ntouched;
 static uint64_t xor_cells(const SBoard *A, const SBoard *B, int pawns) {
   uint64_t d = 0;
-  for (int s = 0; s < 64; s++) if (A->b[s] != B->b[s]) {
-    if (A->b[s] && (S_KIND(A->b[s]) == 1) == pawns) d ^= _ZN6engine10PIECE_HASHE[A->b[s]][s];
-    if (B->b[s] && (S_KIND(B->b[s]) == 1) == pawns) d ^= _ZN6engine10PIECE_HASHE[B->b[s]][s];
+  for (int i = 0; i < 5; i++) if (i < ntouched) {
+    uint32_t s = touched[i]; int dup = 0;
+    for (int j = 0; j < i; j++) if (touched[j] == s) dup = 1;
+    if (!dup && A->b[s] != B->b[s]) d ^= cell(A->b[s], s, pawns) ^ cell(B->b[s], s, pawns);
   }
   return d;
+}
+static void set_touched(SMove m, uint32_t side, uint32_t ep) {
+  ntouched = 0;
+  if (m.castle) { uint32_t r = side ? 56 : 0; touched[0] = r + 4; touched[1] = m.castle == 1 ? r + 6 : r + 2; touched[2] = m.castle == 1 ? r + 7 : r; touched[3] = m.castle == 1 ? r + 5 : r + 3; ntouched = 4; }
+  else { touched[0] = m.from; touched[1] = m.to; ntouched = 2; if (ep != 64 && m.to == ep) { touched[2] = side ? ep + 8 : ep - 8; ntouched = 3; } }
+}
+static int only_touched_differ(const SBoard *A, const SBoard *B) {
+  int ok = 1;
+  for (int s = 0; s < 64; s++) { int t = 0; for (int i = 0; i < 5; i++) if (i < ntouched && touched[i] == (uint32_t)s) t = 1; if (!t && A->b[s] != B->b[s]) ok = 0; }
+  return ok;
+}
+static int pawn_or_pawn_capture(const SBoard *A, SMove m) {
+  if (m.castle) return 0;
+  return S_KIND(A->b[m.from]) == 1 || S_KIND(A->b[m.to]) == 1;
 }
 static void check_keys(const SBoard *T, uint64_t side_flips) {
   PROP((HKEY.HK_piece_key ^ k0) == xor_cells(&S, T, 0), "C04 piece key changes by exactly the cells of the changed non-pawn squares");
@@ -63,15 +102,17 @@ static void check_keys(const SBoard *T, uint64_t side_flips) {
   PROP(HKEY.HK_color_key == (k4 ^ (side_flips ? _ZN6engine9SIDE_HASHE : 0)), "C04 side key toggles with the side to move");
 }
 
-void make_case(const uint32_t *mat, int n, uint32_t side) {
+void make_case(const uint32_t *mat, int n, uint32_t side, int maxc) {
+  ri_maxc = maxc;
   pre_state(mat, n, side);
   SMove m = nondet_move();
   __CPROVER_assume(s_legal(&S, m));
   uint32_t mv = enc_move(m); ce_mv = mv;
   SBoard T; s_apply(&S, m, &T);
+  set_touched(m, side, S.ep);
   uint32_t mi = _ZN6engine8Position7do_moveEj(&P, mv);
 #if defined(CHECK_C02)
-  for (int s = 0; s < 64; s++) PROP(P.POS_board[s] == T.b[s], "C02 piece placement after the move is what the rules prescribe");
+  { uint64_t diff = 0; for (int s = 0; s < 64; s++) if (P.POS_board[s] != T.b[s]) diff |= 1ULL << s; ce_got = diff; PROP(diff == 0, "C02 piece placement after the move is what the rules prescribe"); }
   PROP(P.POS_current_side == T.side, "C02 side to move flips");
   PROP(P.POS_castling_rights == T.cr, "C02 castling rights after the move");
   PROP(P.POS_enpassant_square == T.ep, "C02 en-passant square after the move (set exactly after a double push)");
@@ -82,6 +123,7 @@ void make_case(const uint32_t *mat, int n, uint32_t side) {
   PROP(P.POS_history_counter == HC + 1, "C02 history grows by one entry");
 #endif
 #if defined(CHECK_C04)
+  PROP(only_touched_differ(&S, &T), "reference: a move changes only the squares it touches");
   check_keys(&T, 1);
   PROP(P.POS_history[HC] == (HKEY.HK_piece_key ^ HKEY.HK_pawn_key ^ HKEY.HK_enpassant_key ^ HKEY.HK_castling_key ^ HKEY.HK_color_key), "C04/C07 the key pushed on the history is the key of the new position");
   if (!(pawn_or_pawn_capture(&S, m))) PROP(HKEY.HK_pawn_key == k1, "C04 pawn key unchanged by a move that moves or captures no pawn");
@@ -89,7 +131,7 @@ void make_case(const uint32_t *mat, int n, uint32_t side) {
 #if defined(CHECK_C03)
   uint64_t hist_top = P.POS_history[HC - 1];
   _ZN6engine8Position9undo_moveEjj(&P, mv, mi);
-  for (int s = 0; s < 64; s++) PROP(P.POS_board[s] == S.b[s], "C03 board restored by undo");
+  { uint64_t diff = 0; for (int s = 0; s < 64; s++) if (P.POS_board[s] != S.b[s]) diff |= 1ULL << s; ce_got = diff; PROP(diff == 0, "C03 board restored by undo"); }
   PROP(P.POS_current_side == S.side && P.POS_castling_rights == S.cr && P.POS_enpassant_square == S.ep, "C03 side, rights and en-passant square restored");
   PROP(P.POS_half_move_counter == hm0 && P.POS_ply_counter == (int32_t)ply0, "C03 clocks restored");
   PROP(P.POS_history_counter == HC && P.POS_history[HC - 1] == hist_top, "C03 history restored");
@@ -98,26 +140,44 @@ void make_case(const uint32_t *mat, int n, uint32_t side) {
 #endif
 }
 
-void null_case(const uint32_t *mat, int n, uint32_t side) {
+void null_case(const uint32_t *mat, int n, uint32_t side, int maxc) {
+  ri_maxc = maxc;
   pre_state(mat, n, side);
   /* null moves are only made when not in check */
   __CPROVER_assume(!s_attacked(&S, s_king_sq(&S, side), 1 - side));
-  SBoard T = S; T.side = 1 - side; T.ep = 64;
+  SBoard T = S; T.side = 1 - side; T.ep = 64; ntouched = 0;
   uint32_t mi = _ZN6engine8Position12do_null_moveEv(&P);
 #if defined(CHECK_C04)
   check_keys(&T, 1);
 #endif
 #if defined(CHECK_C02) || defined(CHECK_C03)
-  for (int s = 0; s < 64; s++) PROP(P.POS_board[s] == S.b[s], "null move leaves the placement alone");
+  { uint64_t diff = 0; for (int s = 0; s < 64; s++) if (P.POS_board[s] != S.b[s]) diff |= 1ULL << s; PROP(diff == 0, "null move leaves the placement alone"); }
   PROP(P.POS_current_side == T.side && P.POS_castling_rights == S.cr && P.POS_enpassant_square == 64, "null move flips the side and clears the en-passant square");
   PROP(P.POS_history_counter == HC, "null move pushes no history entry");
 #endif
 #if defined(CHECK_C03)
   _ZN6engine8Position14undo_null_moveEj(&P, mi);
-  for (int s = 0; s < 64; s++) PROP(P.POS_board[s] == S.b[s], "C03 board unchanged by null move + undo");
+  { uint64_t diff = 0; for (int s = 0; s < 64; s++) if (P.POS_board[s] != S.b[s]) diff |= 1ULL << s; PROP(diff == 0, "C03 board unchanged by null move + undo"); }
   PROP(P.POS_current_side == S.side && P.POS_castling_rights == S.cr && P.POS_enpassant_square == S.ep, "C03 side, rights and en-passant square restored after null move");
   PROP(P.POS_half_move_counter == hm0 && P.POS_ply_counter == (int32_t)ply0 && P.POS_history_counter == HC, "C03 clocks and history restored after null move");
   PROP(HKEY.HK_piece_key == k0 && HKEY.HK_pawn_key == k1 && HKEY.HK_enpassant_key == k2 && HKEY.HK_castling_key == k3 && HKEY.HK_color_key == k4, "C03 all five key components restored after null move");
   check_ri(&S, "");
 #endif
+}
+
+/* from-scratch key (HashKey::init, called by the FEN constructor) equals the definition: XOR of the cells of all
+   pieces (pawns into the pawn part), the castling cell of the rights, the en-passant cell of the file iff an
+   en-passant square is set, the side cell iff Black is to move */
+void init_case(const uint32_t *mat, int n, uint32_t side) {
+  pos_build(mat, n, side, 0);
+  zobrist_tables_arbitrary();
+  static struct S_class_engine__HashKey hk;   /* zero, as the HashKey() constructor leaves it */
+  _ZN6engine7HashKey4initERKNS_8PositionE(&hk, &P);
+  uint32_t here = (ind_sq < 64) ? S.b[ind_sq & 63] : 0;
+  int present = here == ind_pc && ind_pc != 0;
+  PROP(hk.HK_piece_key == ((present && S_KIND(ind_pc) != 1) ? ind_v : 0), "C04 scratch piece key is the XOR of the non-pawn cells");
+  PROP(hk.HK_pawn_key == ((present && S_KIND(ind_pc) == 1) ? ind_v : 0), "C04 scratch pawn key is the XOR of the pawn cells");
+  PROP(hk.HK_castling_key == _ZN6engine13CASTLING_HASHE[S.cr], "C04 scratch castling key");
+  PROP(hk.HK_enpassant_key == (S.ep == 64 ? 0 : _ZN6engine14ENPASSANT_HASHE[S.ep & 7]), "C04 scratch en-passant key");
+  PROP(hk.HK_color_key == (side ? _ZN6engine9SIDE_HASHE : 0), "C04 scratch side key");
 }
